@@ -26,7 +26,7 @@ ID = "C18"
 LEVEL = "exploration"
 RULE = (
     "Projects as in C01 (all source kinds, defects, binaries, names with spaces / non-ASCII, Git or not) with expression depth <= 2 (AND / OR / WITH "
-    "nesting, several expressions per file), optionally one file padded to a size in {1, 8191, 8192, 8193, 16384, 16385, 24577} bytes, optionally a "
+    "nesting, several expressions per file), optionally one file padded to a size in {1, 8191, 8192, 8193, 16384, 16385, 24577, 65535, 65536, 65537, 131073, 200001} bytes, optionally a "
     "byte-identical copy of a file under the same base name in another directory, LicenseRef- texts (multi-line, non-ASCII); options: "
     "--add-license-concluded (with --creator-person / --creator-organization, with and without '(...)'), -o FILE, worker pool on/off.  Oracle: "
     "independent tag-value reader; FileName set = lint's file set; SPDXIDs unique and in bijection with DESCRIBES; FileChecksum = hashlib.sha1; "
@@ -38,7 +38,7 @@ ASSUMPTIONS = [
     "vlib/ref/spdxtv.py reads tag-value; vlib/ref/boolexpr.py decides equivalence (WITH pairs atomic)",
     "texts and notices never contain '</text>' (inexpressible in tag-value)",
 ]
-SIZES = [1, 8191, 8192, 8193, 16384, 16385, 24577]
+SIZES = [1, 8191, 8192, 8193, 16384, 16385, 24577, 65535, 65536, 65537, 131073, 200001]
 MANDATORY = ["SPDXVersion", "DataLicense", "SPDXID", "DocumentName", "DocumentNamespace", "Creator", "Created"]
 
 
